@@ -1,11 +1,11 @@
 package rules
 
 import (
-	"golang.org/x/tools/go/types/typeutil"
 	"fmt"
 	"go/ast"
 	"go/token"
 	"go/types"
+	"golang.org/x/tools/go/types/typeutil"
 	"sort"
 	"strings"
 
@@ -15,7 +15,7 @@ import (
 
 func init() {
 	register(Property{
-		ID: "C09",
+		ID:          "C09",
 		Explanation: "Decided statically on the two scanning closures (anchor: function literals that assign a local from text/scanner.(*Scanner).Next) and the small snippet constructors: R1 cursor discipline - no read of the cursor rune is reachable from an emit of it without an intervening Next() (a rune is never emitted and then dispatched again); R2 the rune that terminates a placeholder name is re-dispatched without reading the next one only when it is '@', and is emitted only when it is known not to be the apostrophe (so the apostrophe is consumed on every path, also for nil arguments); R3 every yielded value is the cursor rune or a fragment of an argument's own Frag - substituted text never flows back into a scanner; R4 the absent edge of the argument lookup reaches panic before any emit or return; R5 Sprintf verb table: %T -> ID / nested snippet, %v -> Value / nested snippet, %% -> the cursor, default -> panic, one argument consumed per %T/%v, missing argument -> panic; R6 the template format is pre-processed only by strings.TrimLeft(format, \"\\n\"); R7 Comment emits text only behind a constant starting with //, GoDirective starts with the constant //go: and guards arguments by len > 0, Snippets/Fragments yield the parts' own fragments in order, skipping only IsNil parts. R6 also covers the constructors (T, Sprintf, Block, ...): they store their arguments unchanged. R6 also: T stores every binding its argument sets yield (each iteration of the loop over Args() executes the keyed store); R7 also: no IsNil method iterates, calls or hands on a single-use receiver (an iterator function or channel): every rendering path asks IsNil before Frag. R3/R7 accept fragment forwarders (a function whose iterator yields nothing but the range values of its Snippet parameter's Frag) as the fragments of that snippet. NOT decided: full input/output string equality of rendering for all formats and bindings (needs execution or symbolic execution).",
 		Assumptions: commonAssumptions,
 		Run:         runC09,
@@ -24,10 +24,10 @@ func init() {
 
 // scanClosure describes one rune-scanning closure.
 type scanClosure struct {
-	f      *core.Func
-	g      *cfgx.G
-	cursor *types.Var
-	yield  *types.Var
+	f       *core.Func
+	g       *cfgx.G
+	cursor  *types.Var
+	yield   *types.Var
 	scanner *types.Var
 }
 
@@ -193,8 +193,10 @@ func c09R1(r *core.Report, sc *scanClosure) {
 	}
 	for i, e := range emits {
 		tp, found := sc.g.Reach(e, false, cfgx.Query{
-			Target: func(q cfgx.Point) bool { return q.Node() != nil && !sc.defsCursor(q.Node()) && sc.readsCursor(q.Node()) },
-			Cut:    func(q cfgx.Point) bool { return sc.defsCursor(q.Node()) },
+			Target: func(q cfgx.Point) bool {
+				return q.Node() != nil && !sc.defsCursor(q.Node()) && sc.readsCursor(q.Node())
+			},
+			Cut: func(q cfgx.Point) bool { return sc.defsCursor(q.Node()) },
 		})
 		construct := fmt.Sprintf("emit #%d of the cursor is followed by Next() before any read", i+1)
 		if found {
@@ -281,25 +283,25 @@ func c09R2(r *core.Report, sc *scanClosure) {
 	n := 0
 	seenEmit := map[cfgx.Point]bool{}
 	for _, dn := range innerDefs {
-	sc.g.Reach(sc.g.PointOf(dn), false, cfgx.Query{
-		Target: func(q cfgx.Point) bool {
-			if q.Node() != nil && sc.emitsCursor(q.Node()) && !seenEmit[q] {
-				seenEmit[q] = true
-				n++
-				facts := sc.g.FactsAt(q)
-				ok := false
-				for _, f := range facts {
-					if aposFalse(f) {
-						ok = true
+		sc.g.Reach(sc.g.PointOf(dn), false, cfgx.Query{
+			Target: func(q cfgx.Point) bool {
+				if q.Node() != nil && sc.emitsCursor(q.Node()) && !seenEmit[q] {
+					seenEmit[q] = true
+					n++
+					facts := sc.g.FactsAt(q)
+					ok := false
+					for _, f := range facts {
+						if aposFalse(f) {
+							ok = true
+						}
 					}
+					r.Check(ok, rule, sc.f, "terminator is emitted only when it is not the apostrophe", q.Node().Pos(),
+						"emit dominated by c == '\\'' being false", "the rune that ended the placeholder name can be emitted while it may be the apostrophe delimiter")
 				}
-				r.Check(ok, rule, sc.f, "terminator is emitted only when it is not the apostrophe", q.Node().Pos(),
-					"emit dominated by c == '\\'' being false", "the rune that ended the placeholder name can be emitted while it may be the apostrophe delimiter")
-			}
-			return false
-		},
-		Cut: func(q cfgx.Point) bool { return sc.defsCursor(q.Node()) || (q.B == bodyEntry && q.I == 0) },
-	})
+				return false
+			},
+			Cut: func(q cfgx.Point) bool { return sc.defsCursor(q.Node()) || (q.B == bodyEntry && q.I == 0) },
+		})
 	}
 	if n == 0 {
 		r.Bad(rule, sc.f, "terminator is emitted only when it is not the apostrophe", innerDef.Pos(), "no emit of a non-delimiter terminator found: the character following a placeholder would be lost")
